@@ -116,6 +116,11 @@ class StoreSession:
     def _record(self, ev, cls, cond, etag, status, concrete):
         ev["resp"] = {"cls": cls, "cond": cond, "etag": self.E(etag) if etag else 0, "status": status}
         ev["lk"] = False
+        # the real UID bookkeeping, for conformance with UidCache.tla
+        u2f = getattr(self.store, "_uid_to_fname", {})
+        f2u = getattr(self.store, "_fname_to_uid", {})
+        ev["u2f"] = {str(u): v[0] for u, v in u2f.items()}
+        ev["f2u"] = {n: {"e": self.E(v[0]), "uid": "" if v[1] is None else str(v[1])} for n, v in f2u.items()}
         ev["audit"] = self.audit()
         self.events.append(ev)
         self.concrete.append(concrete)
